@@ -332,4 +332,40 @@ def guardDelay (u : U) (g : String) : Bool :=
   else if g = "waiting_stopwatch.is_paused" then u.ws.paused
   else false
 
+/-- `detect_fd_leaks`: `stopwatch` is the attempt's, `sleep` the leak timeout's -/
+def applyDrain (u : U) (a : String) : U × List Act :=
+  if a = "stopwatch.pause" then ({ u with sw := { u.sw with paused := true } }, [])
+  else if a = "sleep.pause" then ({ u with lsPaused := true }, [])
+  else if a = "stopwatch.resume" then ({ u with sw := { u.sw with paused := false } }, [])
+  else if a = "sleep.resume" then ({ u with lsPaused := false }, [])
+  else if a = "ack" then (u, [.ack])
+  else (u, [.panic])
+
+def guardDrain (u : U) (g : String) : Bool :=
+  if g = "" then true
+  else if g = "stopwatch.is_paused" then u.sw.paused
+  else if g = "stopwatch.not_paused" then !u.sw.paused
+  else if g = "sleep.is_paused" then u.lsPaused
+  else if g = "sleep.not_paused" then !u.lsPaused
+  else false
+
+/-- `handle_signal_request` (main loop of an attempt): `stopwatch` is the attempt's, `interval_sleep` the slow-timeout interval's -/
+def applyMain (u : U) (a : String) : U × List Act :=
+  if a = "stopwatch.pause" then ({ u with sw := { u.sw with paused := true } }, [])
+  else if a = "interval_sleep.pause" then ({ u with is := { u.is with paused := true } }, [])
+  else if a = "stopwatch.resume" then ({ u with sw := { u.sw with paused := false } }, [])
+  else if a = "interval_sleep.resume_if_paused" then ({ u with is := { u.is with paused := false } }, [])
+  else if a = "job_control:Stop" then (u, [.kill .tstp])
+  else if a = "job_control:Continue" then (u, [.kill .cont])
+  else if a = "ack" then (u, [.ack])
+  else (u, [.panic])
+
+def guardMain (u : U) (g : String) : Bool :=
+  if g = "" then true
+  else if g = "stopwatch.is_paused" then u.sw.paused
+  else if g = "stopwatch.not_paused" then !u.sw.paused
+  else if g = "interval_sleep.is_paused" then u.is.paused
+  else if g = "interval_sleep.not_paused" then !u.is.paused
+  else false
+
 end NextestModel.Unit
